@@ -106,6 +106,13 @@ TrigPair(X, Y) ==
   \cup If(X.k \in {"fp", "pline"} \/ (X.k = "pset" /\ Y.k = "pset"), "containsregion-crash")
 TrigPrim(X) == If(WideSect(X), "sector-wide-angle-polygon")
 
+\* measure (`size`) of a composition when it is decided on the lattice: the intersection of two
+\* single cells is the meet box (AABB exact), so its volume / area is the product of its non-flat
+\* extents; -1 = not stated
+MeasOf(RR) == LET bb == AABB(RR) e1 == bb.b[2] - bb.b[1] e2 == bb.b[4] - bb.b[3] e3 == bb.b[6] - bb.b[5] IN
+   IF RR.k = "inter" /\ bb.e /\ bb.x /\ RR.a.k # "all" /\ RR.b.k # "all" /\ e1 > 0 /\ e2 > 0
+      /\ bb.b[5] > -INF /\ bb.b[6] < INF
+   THEN (IF e3 > 0 THEN e1 * e2 * e3 ELSE e1 * e2) ELSE -1
 \* ---------------------------------------------------------------- what the library must answer
 PrimRec(r, rw) == [t |-> "prim", r |-> r, bits |-> [q \in 1..NQ |-> Bit(rw.ma[q])],
                bd |-> [q \in 1..NQ |-> Bit(rw.ba[q])],
@@ -119,7 +126,7 @@ CaseRec(p, o, rw) == LET RR == Comp(o, PA(p), PB(p)) IN
     bits |-> [q \in 1..NQ |-> Bit(ExpectedR(rw, o, q))],
     ok |-> [q \in 1..NQ |-> Bit(ClearR(rw, q) /\ PlaneOKR(rw, q) /\ JudgedR(p, rw, o, q))],
     trig |-> TrigOp(PA(p), PB(p), o),
-    h |-> Height(RR), bb |-> AABB(RR),
+    h |-> Height(RR), bb |-> AABB(RR), meas |-> MeasOf(RR),
     dist |-> [k \in 1..Len(DistIdx) |-> Dist(RR, PR(DistIdx[k], Pairs[p].dz))],
     smp |-> [k \in 1..Len(SmpP(p, o)) |-> Cell(RR, SmpP(p, o)[k])]]
 
@@ -228,6 +235,11 @@ SampleSound == mode = "smp" => \A k \in 1..Len(out.smp) :
   LET q == SmpP(i, op)[k] IN
   /\ out.smp[k] = "in" => Member(R, q)
   /\ out.smp[k] = "out" => ~Member(R, q)
+
+\* a stated measure belongs to a non-empty set whose box is exact; a flat set has an area
+MeasSound == IsCase => (out.meas >= 0 =>
+   /\ out.bb.x /\ out.h.t # "none" /\ out.meas > 0
+   /\ (out.h.t = "z" <=> out.bb.b[5] = out.bb.b[6]))
 
 \* ---------------------------------------------------------------- Reuse: histories
 \* The laws above are stated on VALUES: what A.op(B) denotes is a function of the sets A and B
